@@ -200,21 +200,21 @@ impl QueryNode {
             // Check if any shard is in a dual-write split phase (causes duplicate data)
             let needs_dedup = self.metadata.has_active_split().await.unwrap_or(false);
 
-            // Map metadata-selected chunks into the logical `metrics` table used by SQL.
-            // Execute query with or without adaptive indexing while holding a stable
-            // `metrics` table binding for this request.
-            let results = self
+            // Map metadata-selected chunks into the logical `metrics` table used by SQL
+            // and plan the statement while that binding is held, so the plan keeps
+            // the chunk set selected for this request whatever other requests bind
+            // afterwards. The plan runs after the binding lock has been released.
+            let df = self
                 .engine
-                .with_metrics_table(&chunk_paths, || async {
-                    if let Some(ref controller) = self.adaptive_index_controller {
-                        self.engine
-                            .execute_with_indexes(sql, tenant_id, controller.clone())
-                            .await
-                    } else {
-                        self.engine.execute(sql).await
-                    }
-                })
+                .with_metrics_table(&chunk_paths, || self.engine.plan(sql))
                 .await?;
+            let results = if let Some(ref controller) = self.adaptive_index_controller {
+                self.engine
+                    .collect_with_indexes(df, tenant_id, controller.clone())
+                    .await?
+            } else {
+                self.engine.collect(df).await?
+            };
 
             // Deduplicate if any shard is in dual-write phase
             let deduped = if needs_dedup {
